@@ -309,12 +309,14 @@ class Item:
 class Silver:
     @staticmethod
     def params(draw, L):
-        return {"L": L, "n": draw(sf([1, 3, 7]))}
+        return {"L": L, "n": draw(sf([1, 3, 7, 2, 5, 6]))}
 
     @staticmethod
     def run(case, rng):
         p, n, kind, slack = case["params"], case["n_dim"], case["member"], case["slack"]
         L, N = p["L"], p["n"]
+        # documented: "n ... will be reset to the largest power of 2 minus 1 smaller than the provided value"
+        N = 2 ** int(math.floor(math.log2(N + 1) + 1e-12)) - 1
         h = [1 + (1 + math.sqrt(2)) ** (((i & -i).bit_length() - 1) - 1) for i in range(1, N + 1)]
         if kind == "extremal" and n == 1:
             m = _b().Huber1D(L / slack, float(rng.choice([0.02, 0.05, 0.1, 0.2, 0.4, 5.0])))
@@ -583,11 +585,38 @@ class AccProxPoint:
     def params(draw, L):
         n = draw(st.integers(1, 4))
         lam = draw(sf([0.5, 1.0, 2.0]))
-        return {"A0": draw(sf([1.0, 5.0, 0.5])), "gammas": [lam / (i + 1) if draw(st.booleans()) else lam for i in range(n)], "n": n}
+        shape = draw(sf(["mixed", "increasing", "decreasing", "constant", "docstring"]))
+        if shape == "increasing":
+            gammas = [round(lam * (i + 1), 6) for i in range(n)]
+        elif shape == "decreasing":
+            gammas = [round(lam / (i + 1), 6) for i in range(n)]
+        elif shape == "constant":
+            gammas = [lam] * n
+        elif shape == "docstring":
+            gammas = [round((i + 1) / 1.1, 6) for i in range(n)]
+        else:
+            gammas = [lam / (i + 1) if draw(st.booleans()) else lam for i in range(n)]
+        return {"A0": draw(sf([1.0, 5.0, 0.5])), "gammas": gammas, "n": n}
 
     @staticmethod
     def run(case, rng):
         p, n, kind = case["params"], case["n_dim"], case["member"]
+        if kind == "extremal" and rng.randint(2):
+            # the worst case is attained by c |x| in one dimension for a slope c that depends on the schedule: scan the slope
+            best = 0.0
+            for c in np.logspace(-2.5, 1.5, 160):
+                x0 = 1.0
+                init = c * abs(x0) + p["A0"] / 2 * x0 * x0
+                x, v, A = x0, x0, p["A0"]
+                for i in range(p["n"]):
+                    gi = p["gammas"][i]
+                    al = (math.sqrt((A * gi) ** 2 + 4 * A * gi) - A * gi) / 2
+                    y = (1 - al) * x + al * v
+                    x = math.copysign(max(abs(y) - gi * c, 0.0), y)
+                    v = v + (x - y) / al
+                    A = (1 - al) * A
+                best = max(best, c * abs(x) / init)
+            return best, UC, "wc_accelerated_proximal_point", p
         if kind == "random2":
             m = members.Quadratic(rng, n, [rng.uniform(0, 3) for _ in range(n)])
 
